@@ -8,6 +8,8 @@ import os
 SP_ANY = os.environ.get('VERIF_SP_STRICT') != '1'
 # row switches were the open finding F-ROWSWITCH (fixed in /repo); VERIF_ROWSWITCH_STRICT=1 keeps them out again
 ROWSWITCH_STRICT = os.environ.get('VERIF_ROWSWITCH_STRICT') == '1'
+# re-creating a key as another class of its hierarchy within one transaction was the open finding F-CLASSSWITCH-TX
+CLASSSWITCH_STRICT = os.environ.get('VERIF_CLASSSWITCH_STRICT') == '1'
 
 
 def entity_info(spec):
@@ -173,7 +175,7 @@ def random_program(rng, spec, nsteps, weights=None, nkeys=3, nvals=4, allow_clas
             # W7: within one database transaction a key keeps its class (re-creating it as another class
             # of the same hierarchy is allowed only after the deletion was committed)
             prev = class_of.get((root(cname), tuple(pk)))
-            if prev is not None and prev != cname and ((root(cname), tuple(pk)) in deleted_uncommitted or not allow_class_switch):
+            if prev is not None and prev != cname and (((root(cname), tuple(pk)) in deleted_uncommitted and CLASSSWITCH_STRICT) or not allow_class_switch):
                 cname = prev
             class_of[(root(cname), tuple(pk))] = cname
             if (root(cname), tuple(pk)) in deleted_unflushed and (ROWSWITCH_STRICT or rng.random() < 0.5):
